@@ -588,3 +588,27 @@ theorem call_arguments_fixed (chk : Nat → Nat → Bool) (th : Local) :
    fun _ _ => ⟨rfl, rfl, rfl, rfl⟩⟩
 
 end Woodpile.Props.C13
+
+namespace Woodpile.Props.C13
+open Woodpile.Abt
+
+/-- Only the lock holder publishes: a step that changes the history is a step of the thread
+holding the writer mutex.  Hence from the moment a writer takes the lock until it drops the
+guard nobody else appends, and "the most recently published pair when it compares" in
+`*_fresh_update_accepted` / `*_stale_update_ignored` is "the most recently published pair when
+it took the lock". -/
+theorem sc_only_holder_publishes {chk : Nat → Nat → Bool} {v0 : Nat} (h0 : chk 0 v0 = true) {s s' : SC.State}
+    (h : SC.Reachable chk v0 s) (l : Label) (hs : SC.step chk s l = some s') (hne : s'.hist ≠ s.hist) :
+    ∃ t ts, l = .run t ts ∧ s.held = some t := by
+  rcases SC.hist_step chk s s' l hs with he | ⟨t, ts, hl, hpc, _⟩
+  · exact absurd he hne
+  · exact ⟨t, ts, hl, ((sc_invariant h0 h).lock t).1 (by simp [hpc, Pc.inCS])⟩
+
+theorem ra_only_holder_publishes {chk : Nat → Nat → Bool} {v0 : Nat} (h0 : chk 0 v0 = true) {s s' : RA.State}
+    (h : RA.Reachable chk v0 s) (l : Label) (hs : RA.step chk s l = some s') (hne : s'.hist ≠ s.hist) :
+    ∃ t ts, l = .run t ts ∧ s.held = some t := by
+  rcases RA.hist_step chk s s' l hs with he | ⟨t, ts, hl, hpc, _⟩
+  · exact absurd he hne
+  · exact ⟨t, ts, hl, ((ra_invariant h0 h).t t).lock.1 (by simp [hpc, Pc.inCS])⟩
+
+end Woodpile.Props.C13
